@@ -343,6 +343,72 @@ def run (fold : Str → Str → Bool) : State → List Op → State × List (Sta
     let (fin, tr) := run fold st' rest
     (fin, (st, o, ok) :: tr)
 
+/-! ### start from a genesis document (x/xibc/core/client/genesis.go `InitGenesis`, types/genesis.go `Validate`) -/
+
+/-- keys of a client's store: the two RESERVED kinds (owned by the `clients` / `clients_consensus` sections) and
+everything else (processed times, iteration index keys, … — opaque). -/
+inductive GKey where
+  | clientState
+  | consensus (h : Nat)
+  | other (k : Bytes)
+  deriving Repr, DecidableEq
+
+/-- what a store entry decodes to, as far as C06 cares: a client state (who is configured), a consensus state
+(identity `id` of its content) or opaque bytes. -/
+inductive GVal where
+  | client (c : Client)
+  | cons (id : Nat)
+  | raw (id : Nat)
+  deriving Repr, DecidableEq
+
+/-- the per-client stores, as an association list: the FIRST entry of a key is the current value (`cset` conses). -/
+abbrev CStore := List ((Str × GKey) × GVal)
+
+def cset (s : CStore) (k : Str × GKey) (v : GVal) : CStore := (k, v) :: s
+def cget (s : CStore) (k : Str × GKey) : Option GVal :=
+  match s with
+  | [] => none
+  | (k', v) :: rest => if k' = k then some v else cget rest k
+
+structure GenDoc where
+  native : Str
+  clients : List (Str × Client × Bool)          -- chain, client state, "its Validate() passes" (bech32 of a TSS address: external)
+  consensus : List (Str × Nat × Nat)            -- chain, height, content identity
+  metadata : List (Str × GKey × GVal)           -- `clients_metadata`: arbitrary key / value pairs per chain
+  relayers : List Relayer                       -- NOT validated by `GenesisState.Validate`
+  deriving Repr
+
+/-- `GenesisState.Validate` (client part): identifiers, every client state valid, consensus states and metadata only
+for listed clients (metadata keys / values merely non-empty), native chain name an identifier. -/
+def GenDoc.valid (d : GenDoc) : Bool :=
+  d.clients.all (fun c => validChainId c.1 && c.2.2) &&
+  d.consensus.all (fun c => d.clients.any (fun x => x.1 == c.1) && c.2.1 != 0) &&
+  d.metadata.all (fun m => d.clients.any (fun x => x.1 == m.1)) &&
+  validChainId d.native
+
+/-- `InitGenesis`: all metadata first, THEN the client states, then the consensus states — so that the validated
+sections overwrite whatever the metadata wrote under the reserved keys. -/
+def importStore (d : GenDoc) : CStore :=
+  let s0 := d.metadata.foldl (fun s m => cset s (m.1, m.2.1) m.2.2) []
+  let s1 := d.clients.foldl (fun s c => cset s (c.1, .clientState) (.client c.2.1)) s0
+  d.consensus.foldl (fun s c => cset s (c.1, .consensus c.2.1) (.cons c.2.2)) s1
+
+/-- the client configuration read back from the imported store (`GetClientState` for every listed chain). -/
+def importedClients (d : GenDoc) : Clients :=
+  (d.clients.map (·.1)).eraseDups.filterMap (fun ch =>
+    match cget (importStore d) (ch, .clientState) with
+    | some (.client c) => some (ch, c)
+    | _ => none)
+
+/-- relayers: `RegisterRelayers` for every entry in document order (a later entry of the same address overwrites). -/
+def importedRegistry (d : GenDoc) : Registry := d.relayers.foldl register []
+
+/-- start (or restart) of the client sub-module from a document: refused if it does not validate; otherwise clients
+and registry are exactly what the import wrote (packet state is imported from the untouched packet section). -/
+def startFrom (st : State) (d : GenDoc) : State × Bool :=
+  if d.valid then ({ st with self := d.native, clients := importedClients d, reg := importedRegistry d }, true)
+  else (st, false)
+
 def init (self : Str) : State :=
   { self := self, reg := [], clients := [], receipts := [], commits := [], acks := [] }
 
